@@ -52,6 +52,9 @@ func c15Menu() []c15Rec {
 		{c15Feature("f2", "CDS", gts.Complemented{Location: gts.Range(4, 10)}), c15Feature("f1", "gene", gts.Range(2, 7)), c15Feature("f3", "gene", gts.Range(3, 5))},
 		{c15Feature("f1", "gene", gts.Joined{gts.Range(1, 3), gts.Range(7, 9)}), c15Feature("f2", "gene", gts.Range(7, 9)), c15Feature("f3", "CDS", gts.Range(0, 12))},
 		{c15Feature("f1", "gene", gts.Range(2, 7)), c15Feature("f2", "gene", gts.Range(2, 7)), c15Feature("f3", "CDS", gts.Complemented{Location: gts.Joined{gts.Range(0, 2), gts.Range(9, 12)}})},
+		// two different regions with the same end points (a gene and its spliced CDS), plus the same on the other strand
+		{c15Feature("f1", "gene", gts.Range(2, 9)), c15Feature("f2", "CDS", gts.Joined{gts.Range(2, 4), gts.Range(7, 9)}),
+			c15Feature("f3", "gene", gts.Complemented{Location: gts.Range(3, 11)}), c15Feature("f4", "CDS", gts.Complemented{Location: gts.Joined{gts.Range(3, 5), gts.Range(9, 11)}})},
 	}
 	var out []c15Rec
 	for ti, t := range tables {
